@@ -46,3 +46,6 @@ revert 9a81775 C09
 revert b081f38 C05
 revert a9c6d26 C05
 revert dea9526 C04
+revert 2506317 C07
+revert 057bbdd C05
+revert 95ddb54 C02
